@@ -226,10 +226,12 @@ def validate(trace_module, cfg, files, timeout=3000, xmx="3g", par=None):
             raise Infra("trace validation of %s did not complete (rc=%s):\n%s" % (path, rc, out[-3000:]))
         bads, notes = [], []
         for line in out.splitlines():
-            b = BAD_RE.match(line)
-            if b:
-                bads.append({"file": path, "l": int(b.group(1)), "row": int(b.group(2)), "prop": b.group(3),
-                             "clause": b.group(4), "trace": (trace_module, cfg)})
+            if line.startswith('"[\\"BAD'):
+                b = unquote_tla_json(line)
+                if b is None:
+                    raise Infra("unparseable BAD line: " + line[:300])
+                bads.append({"file": path, "l": b[1], "row": b[2], "prop": b[3], "clause": b[4],
+                             "trace": (trace_module, cfg)})
             elif line.startswith('<<"NOTE"'):
                 notes.append(line)
         return bads, int(m.group(1)), notes
